@@ -20,3 +20,14 @@ Fixpoint scalar_oneofs (s : shape) : bool :=
   | SOneOf vs _ => forallb scalar_variant vs
   | STuple es _ => forallb scalar_oneofs es
   end.
+
+(* a wider candidate class that does NOT work (Properties/C03.v, C03_wider_class_refuted): every OneOf
+   variant non-optional and not Null, but allowed to be an Array / Object / Tuple *)
+Fixpoint nonopt_variants (s : shape) : bool :=
+  match s with
+  | SNull | SBool _ | SNumber _ | SString _ => true
+  | SArray t _ => nonopt_variants t
+  | SObject c _ => forallb (fun p => nonopt_variants (snd p)) c
+  | SOneOf vs _ => forallb (fun v => negb (is_optional v) && nonopt_variants v) vs
+  | STuple es _ => forallb nonopt_variants es
+  end.
